@@ -1,8 +1,343 @@
 import RbV.Basic.Codec
-/-! Driver for property C13 (line protocol → verdict). -/
-namespace RbV.Drv.C13
-open RbV.Codec
+import RbV.Model.Tsv
+/-! Driver for property C13: BED and GFF/GTF round trip, comments, malformed lines.
 
-def verdict (_toks : List String) (_out : String) : String := "bad-op unimplemented"
+```
+c13 bed <recs> <comments> <fault>            => w:<hex> r:<results> c:<results> rw:x f:<…>
+c13 gff <dialect> <recs> <comments> <fault>  => w:<hex> r:<results> c:<results> rw:<hex|x> f:<…>
+```
+(see `harness/src/c13.rs` for the syntax).  Checks, all against the model reader `Tsv.readBed` / `Tsv.readGff`:
+
+* **writer** — the model reader applied to the bytes `w` of the real writer gives the original records
+  (attributes as key ↦ value lists);
+* **reader** — the real reader on `w` (`r`), and on `w` with comment and blank lines inserted (`c`), gives what the
+  model reader gives on `w`; (GFF) writing those records again (`rw`) reads back to the same records, which also
+  pins the raw score/strand strings that the accessors only show in parsed form;
+* **faults** — for the corrupted / truncated bytes the model reader fixes, line by line, `ok record` / `err` /
+  unspecified; a line that must be an error has to be `err`, lines before the first damaged line have to be
+  unchanged, later lines may be `ok` with the right content or `err` (a non-flexible reader may reject them).
+-/
+namespace RbV.Drv.C13
+open RbV.Codec RbV.Tsv
+
+def failed (out : String) : Bool :=
+  out.startsWith "PANIC" || out.startsWith "HANG" || out.startsWith "CRASH"
+
+/-! ### rendering of model records in the harness' observation syntax -/
+
+def strandView (s : List Nat) : String := if s = [43] then "f" else if s = [45] then "r" else "n"
+
+def optHex : Option (List Nat) → String
+  | none => "N"
+  | some v => toHex v
+
+def showBed (r : BedRec) : String :=
+  ";".intercalate ([toHex r.chrom, toString r.start, toString r.stop] ++ r.aux.map toHex)
+    ++ "~" ++ optHex r.aux[0]? ++ "~" ++ optHex r.aux[1]?
+    ++ "~" ++ (match r.aux[2]? with | some s => strandView s | none => "n")
+
+def ltBytes : List Nat → List Nat → Bool
+  | [], [] => false
+  | [], _ :: _ => true
+  | _ :: _, [] => false
+  | a :: x, b :: y => if a < b then true else if b < a then false else ltBytes x y
+
+def insertSorted (kv : List Nat × List (List Nat)) : List (List Nat × List (List Nat)) → List (List Nat × List (List Nat))
+  | [] => [kv]
+  | h :: t => if ltBytes kv.1 h.1 then kv :: h :: t else h :: insertSorted kv t
+
+/-- key ↦ values, keys sorted (the canonical form the harness prints) -/
+def canon (pairs : List (List Nat × List Nat)) : List (List Nat × List (List Nat)) :=
+  (group pairs).foldl (fun acc kv => insertSorted kv acc) []
+
+def showAttrs (g : List (List Nat × List (List Nat))) : String :=
+  if g.isEmpty then "-" else
+  ",".intercalate (g.map fun kv => ":".intercalate (toHex kv.1 :: kv.2.map toHex))
+
+/-- `Record::score()`: `.` → None, a number → Some, anything else → None; `none` = not determined -/
+def scoreView (s : List Nat) : Option String :=
+  if s = [46] then some "N" else
+  match readU64 s with
+  | .ok n => some (toString n)
+  | .err => some "N"
+  | .unspec => none
+
+def showGff (r : GffRead) : Option String :=
+  match scoreView r.score with
+  | none => none
+  | some sc =>
+    some (";".intercalate [toHex r.seqname, toHex r.source, toHex r.ftype, toString r.start, toString r.stop, sc,
+      strandView r.strand, (match r.phase with | none => "n" | some p => toString p), showAttrs (canon r.pairs)])
+
+/-- everything of a GFF record but the attributes (for lines whose attribute column is not of the written form) -/
+def dropAttrs (s : String) : String :=
+  ";".intercalate ((s.splitOn ";").take 8)
+
+/-! ### input parsing -/
+
+def parseBedRec (s : String) : Option BedRec :=
+  match s.splitOn ";" with
+  | c :: a :: b :: aux => do
+    let c ← parseHex c
+    let a ← parseNat a
+    let b ← parseNat b
+    let aux ← aux.mapM parseHex
+    pure ⟨c, a, b, aux⟩
+  | _ => none
+
+def parseAttr (s : String) : Option (List (List Nat × List Nat)) :=
+  match s.splitOn ":" with
+  | k :: vs@(_ :: _) => do
+    let k ← parseHex k
+    let vs ← vs.mapM parseHex
+    pure (vs.map fun v => (k, v))
+  | _ => none
+
+def parsePhase (s : String) : Option (Option Nat) :=
+  if s = "n" then some none else
+  match parseNat s with
+  | some p => if p < 3 then some (some p) else none
+  | none => none
+
+def parseGffRec (s : String) : Option GffRead :=
+  match s.splitOn ";" with
+  | [a, b, c, st, en, sc, sd, ph, at'] => do
+    let a ← parseHex a
+    let b ← parseHex b
+    let c ← parseHex c
+    let st ← parseNat st
+    let en ← parseNat en
+    let sc ← parseHex sc
+    let sd ← parseHex sd
+    let ph ← parsePhase ph
+    let at' ← parseList parseAttr at'
+    pure ⟨a, b, c, st, en, sc, sd, ph, at'.flatten⟩
+  | _ => none
+
+def parseDialect (s : String) : Option Dialect :=
+  if s = "gff3" then some gff3 else if s = "gff2" || s = "gtf2" then some gff2 else none
+
+def results (s : String) : List String := if s = "-" then [] else s.splitOn "|"
+
+/-! ### comparison of model outcomes with the real reader's results -/
+
+/-- `some s`: must be `ok=s`; for GFF the second component says whether the attribute column is of the written
+form (only then the attributes are compared) -/
+structure Exp where
+  res : Res String
+  attrsCanon : Bool := true
+
+def okMatches (e : Exp) (s r : String) : Bool :=
+  if e.attrsCanon then r = "ok=" ++ s else r.startsWith "ok=" && dropAttrs r = "ok=" ++ dropAttrs s
+
+/-- first reason for which the real results are not acceptable, if any -/
+def matchResults : List Exp → List String → Bool → Bool → Option String
+  | [], [], _, _ => none
+  | [], _ :: _, _, _ => some "more-records-than-lines"
+  | _ :: _, [], _, prevErr => if prevErr then none else some "fewer-records-than-lines"
+  | e :: es, r :: rs, seenBad, _ =>
+    if !(r = "err" || r.startsWith "ok=") then some "unparsable-result" else
+    match e.res with
+    | .ok s =>
+      if okMatches e s r then matchResults es rs seenBad false
+      else if seenBad && r = "err" then matchResults es rs seenBad true
+      else if seenBad then some "record-after-damage-changed"
+      else if r = "err" then some "good-line-rejected"
+      else some "record-differs"
+    | .err why =>
+      if r = "err" then matchResults es rs true true else some ("fault-not-error:" ++ why)
+    | .unspec => matchResults es rs true (r = "err")
+
+def bedExp (bytes : List Nat) : List Exp :=
+  (readBed bytes).map fun
+    | .ok r => { res := .ok (showBed r) }
+    | .err w => { res := .err w }
+    | .unspec => { res := .unspec }
+
+/-- the attribute column is exactly what a writer produces from the matches found in it -/
+def attrTiled (d : Dialect) (s : List Nat) : Bool :=
+  let ms := scan d (s.length + 1) s
+  let again := join d.term (ms.map (renderSeg d))
+  s = again || s = again ++ [d.term]
+
+def gffExp (d : Dialect) (bytes : List Nat) : List Exp :=
+  let rs := rows bytes
+  (readGff d bytes).zip rs |>.map fun (res, row) =>
+    match res with
+    | .ok r =>
+      match showGff r with
+      | some s => { res := .ok s, attrsCanon := attrTiled d (row.getD 8 []) }
+      | none => { res := .unspec }
+    | .err w => { res := .err w }
+    | .unspec => { res := .unspec }
+
+def allOk (es : List Exp) : Option (List String) :=
+  es.mapM fun e => match e.res with | .ok s => some s | _ => none
+
+/-- reasons of lowest priority: recorded genuine defects (so that any other reason shows first) -/
+def lowPriority (r : String) : Bool :=
+  r = "writer:attr-multi-first-only" || r = "fault-not-error:phase-ge3" || r = "fault-not-error:cols10"
+    || r = "rewrite:attr-multi-first-only"
+
+def pickReason (rs : List String) : Option String :=
+  match rs.find? (fun r => !lowPriority r) with
+  | some r => some r
+  | none => rs.head?
+
+def firstOnly (r : GffRead) : GffRead :=
+  { r with pairs := (group r.pairs).map fun kv => (kv.1, kv.2.headD []) }
+
+/-- `cut:o1:o2…` → offsets -/
+def parseCuts (fault : String) : Option (List Nat) :=
+  match fault.splitOn ":" with
+  | "cut" :: offs@(_ :: _) => offs.mapM parseNat
+  | _ => none
+
+def faultKind (fault : String) : String := (fault.splitOn ":").headD "?"
+
+structure Obs where
+  w : List Nat
+  r : List String
+  c : List String
+  rw : Option (List Nat)
+  f : String
+  /-- (GFF) bytes in the intended format written by the harness, and the real reader's results on them -/
+  m : Option (List Nat × List String) := none
+
+def parseObs (out : String) : Option Obs :=
+  match out.splitOn " " with
+  | [w, r, c, rw, f] => do
+    let w ← (fieldVal w "w").bind parseHex
+    let r ← fieldVal r "r"
+    let c ← fieldVal c "c"
+    let rw ← fieldVal rw "rw"
+    let f ← fieldVal f "f"
+    let rw ← if rw = "x" then some none else (parseHex rw).map some
+    pure ⟨w, results r, results c, rw, f, none⟩
+  | [w, r, c, rw, f, m] => do
+    let w ← (fieldVal w "w").bind parseHex
+    let r ← fieldVal r "r"
+    let c ← fieldVal c "c"
+    let rw ← fieldVal rw "rw"
+    let f ← fieldVal f "f"
+    let m ← fieldVal m "m"
+    let rw ← if rw = "x" then some none else (parseHex rw).map some
+    let mm ← match m.splitOn "=" with
+      | b :: rest@(_ :: _) => (parseHex b).map fun bytes => (bytes, results ("=".intercalate rest))
+      | _ => none
+    pure ⟨w, results r, results c, rw, f, some mm⟩
+  | _ => none
+where
+  fieldVal (tok key : String) : Option String :=
+    match field tok with
+    | some (k, v) => if k = key then some v else none
+    | none => none
+
+/-- fault part of the observation → list of (bytes, results) -/
+def faultRuns (fault : String) (o : Obs) : Option (List (List Nat × List String)) :=
+  if fault = "none" then (if o.f = "-" then some [] else none) else
+  match parseCuts fault with
+  | some offs =>
+    let parts := o.f.splitOn "/"
+    if parts.length ≠ offs.length then none else
+    some ((offs.zip parts).map fun (off, p) => (o.w.take off, results p))
+  | none =>
+    match o.f.splitOn "=" with
+    | b :: rest@(_ :: _) => (parseHex b).map fun bytes => [(bytes, results ("=".intercalate rest))]
+    | _ => none
+
+def faultReasons (mk : List Nat → List Exp) (runs : List (List Nat × List String)) : List String :=
+  runs.filterMap fun (bytes, res) => matchResults (mk bytes) res false false
+
+def tagsOf (kind : String) (fault : String) (nrec : Int) (comments : String) (es : List (List Exp)) : String :=
+  " " ++ kind ++ " fault-" ++ faultKind fault
+    ++ (if comments = "-" then "" else " comments")
+    ++ (if nrec = 0 then " empty-file" else "")
+    ++ (if es.any (fun l => l.any fun e => match e.res with | .err _ => true | _ => false) then " err-line" else "")
+    ++ (if es.any (fun l => l.any fun e => match e.res with | .unspec => true | _ => false) then " unspec-line" else "")
+    ++ (if es.any (fun l => l.any fun e => !e.attrsCanon) then " attr-not-of-written-form" else "")
+    ++ (if (match parseCuts fault with | some l => decide (l.length ≥ 20) | none => false) then " many-cuts" else "")
+
+def bedVerdict (recs : List BedRec) (comments fault : String) (o : Obs) : String :=
+  let wExp := bedExp o.w
+  let orig := recs.map showBed
+  let reasons : List String :=
+    (if allOk wExp = some orig then [] else ["writer:lost-or-changed-data"])
+    ++ (match matchResults wExp o.r false false with | some x => ["read:" ++ x] | none => [])
+    ++ (match matchResults wExp o.c false false with | some x => ["comments:" ++ x] | none => [])
+  match faultRuns fault o with
+  | none => "bad-op fault-output"
+  | some runs =>
+    let reasons := reasons ++ faultReasons bedExp runs
+    match pickReason reasons with
+    | some r => "reject " ++ r
+    | none =>
+      let k := match recs with | r :: _ => r.aux.length | [] => 0
+      "ok" ++ (if k ≥ 1 && !recs.isEmpty then " nt" else "")
+        ++ tagsOf "bed" fault recs.length comments (runs.map fun (b, _) => bedExp b)
+        ++ (if k = 0 then " k0" else if k ≥ 3 then " k>=3" else " k1-2")
+
+def gffVerdict (dn : String) (d : Dialect) (recs : List GffRead) (comments fault style : String) (o : Obs) : String :=
+  match o.m with
+  | none => "bad-op output-m"
+  | some (mBytes, mRes) =>
+  let mExp := gffExp d mBytes
+  -- the harness' own writer must produce the intended format: the model reads it back to the original
+  if !((recs.mapM showGff).isSome && allOk mExp = recs.mapM showGff) then "bad-op harness-writer" else
+  let wExp := gffExp d o.w
+  let orig := recs.mapM showGff
+  let origFirst := (recs.map firstOnly).mapM showGff
+  let multi := recs.any fun r => (group r.pairs).any fun kv => kv.2.length ≥ 2
+  let writerReason : List String :=
+    if orig.isSome && allOk wExp = orig then []
+    else if multi && origFirst.isSome && allOk wExp = origFirst then ["writer:attr-multi-first-only"]
+    else ["writer:lost-or-changed-data"]
+  let rwReason : List String :=
+    match o.rw with
+    | none => []
+    | some b =>
+      let e2 := gffExp d b
+      if allOk e2 = allOk wExp then [] else
+      let firsts : Option (List String) :=
+        ((readGff d o.w).mapM fun (x : Res GffRead) => match x with | Res.ok r => some (firstOnly r) | _ => none).bind
+          (·.mapM showGff)
+      if multi && (allOk wExp).isSome && allOk e2 = firsts then ["rewrite:attr-multi-first-only"] else ["rewrite:changed-data"]
+  let reasons : List String := writerReason
+    ++ (match matchResults wExp o.r false false with | some x => ["read:" ++ x] | none => [])
+    ++ (match matchResults wExp o.c false false with | some x => ["comments:" ++ x] | none => [])
+    ++ (match matchResults mExp mRes false false with | some x => ["read-intended:" ++ x] | none => [])
+    ++ rwReason
+  match faultRuns fault o with
+  | none => "bad-op fault-output"
+  | some runs =>
+    let reasons := reasons ++ faultReasons (gffExp d) runs
+    match pickReason reasons with
+    | some r => "reject " ++ r
+    | none =>
+      let nvals := recs.map fun r => r.pairs.length
+      "ok" ++ (if nvals.any (· ≥ 2) then " nt" else "")
+        ++ tagsOf dn fault recs.length comments (runs.map fun (b, _) => gffExp d b)
+        ++ (if multi then " multi-valued" else "") ++ " style-" ++ style
+        ++ (if recs.any (fun r => r.pairs.isEmpty) then " no-attrs" else "")
+
+def verdict (toks : List String) (out : String) : String :=
+  match toks with
+  | ["bed", rs, cm, ft] =>
+    match parseList parseBedRec rs '/' with
+    | some recs =>
+      if failed out then "reject " ++ out else
+      match parseObs out with
+      | some o => bedVerdict recs cm ft o
+      | none => "bad-op output"
+    | none => "bad-op parse"
+  | ["gff", dn, rs, cm, ft, style] =>
+    match parseDialect dn, parseList parseGffRec rs '/' with
+    | some d, some recs =>
+      if failed out then "reject " ++ out else
+      match parseObs out with
+      | some o => gffVerdict dn d recs cm ft style o
+      | none => "bad-op output"
+    | _, _ => "bad-op parse"
+  | _ => "bad-op arity"
 
 end RbV.Drv.C13
